@@ -87,8 +87,9 @@ def _holds_raw_elements(env: Env, obj, depth=0) -> bool:
 def _shared(env: Env, cls, obj, doc_bytes, only=None) -> str:
     """Name of a member whose value in obj (read from doc) is an object that is not obj's own, or ''."""
     w = env.w
-    again = None
-    stack = [(obj, None, 0)]
+    # a second instance read from the same document: walked in parallel, no mutable member may be the same object
+    again = env.x.read(cls, etree.fromstring(doc_bytes))
+    stack = [(obj, again, 0)]
     first = True
     while stack:
         cur, other, depth = stack.pop()
@@ -103,18 +104,19 @@ def _shared(env: Env, cls, obj, doc_bytes, only=None) -> str:
                 continue
             if val is pi.prop._default_py_value or val is pi.prop._implied_py_value:  # noqa: SLF001
                 return f'{c.__name__}.{pi.name} is the default object of the declaration'
-            if first:
-                if again is None:
-                    again = env.x.read(cls, etree.fromstring(doc_bytes))
-                oval = pi.prop.get_actual_value(again)
-                if oval is val:
-                    return f'{c.__name__}.{pi.name} is the same object in two instances read from the same XML'
+            oval = pi.prop.get_actual_value(other) if type(other) is c else None
+            if oval is val:
+                where = '' if first else ' (nested)'
+                return f'{c.__name__}.{pi.name} is the same object in two instances read from the same XML{where}'
             if isinstance(val, list):
-                for v in val:
+                for i, v in enumerate(val):
                     if type(v) in w.props:
-                        stack.append((v, None, depth + 1))
+                        ov = oval[i] if isinstance(oval, list) and i < len(oval) else None
+                        if ov is v:
+                            return f'{c.__name__}.{pi.name}[{i}] is the same object in two instances read from the same XML'
+                        stack.append((v, ov, depth + 1))
             else:
-                stack.append((val, None, depth + 1))
+                stack.append((val, oval, depth + 1))
         first = False
     return ''
 
